@@ -42,6 +42,8 @@ META = {
 ORDERS = ["base_first", "subclass_first"]
 # where the model declares its clustering column (Bind.tla MLayouts); its type (case.ckty) differs from the partition key
 # column whose place it takes
+# key types with values that are equal in Python and different for Cassandra (Bind.tla MPairTypes / PairVal)
+PAIR_TYPES = ["decimal", "double", "float"]
 LAYOUTS = ["keys_first", "clustering_first", "clustering_between"]
 # What the application defines and uses before the model of a case (Bind.tla MOrders).  cqlengine's column classes form
 # a hierarchy (BigInt, SmallInt, TinyInt < Integer; Ascii < Text); anything a column class remembers at class level is
@@ -122,9 +124,9 @@ def new_env(ctx, order):
     return env
 
 
-def evaluate(env, case):
+def evaluate(env, case, vals=None):
     tys = list(case["tys"])
-    keyvals = [B.py_value(t, v) for t, v in zip(tys, case["vals"])]
+    keyvals = [B.py_value(t, v) for t, v in zip(tys, case["vals"] if vals is None else vals)]
     try:
         model = env.model(tys, case.get("layout", "keys_first"), case.get("ckty", "int"))
         stmts = run_op(env, model, case["op"], keyvals)
@@ -139,13 +141,23 @@ def evaluate(env, case):
 
 
 def compare(env, st):
+    """A case is one statement, or (case.before) two statements on the same model whose key values are equal in
+    Python and different for Cassandra; each statement must carry the key of its own values."""
     case, out = st["case"], st["out"]
-    exp = list(out["rk"]["b"])
-    obs = evaluate(env, case)
-    rep = {"case": case, "spec": exp, "code": obs}
     head = "%s:%dkeys:%s" % (case["op"], len(case["tys"]), case.get("order", "base_first"))
     if case.get("layout", "keys_first") != "keys_first":
         head += ":" + case["layout"]
+    if case.get("before"):
+        r = compare_one(env, case, case["before"], list(out["rkBefore"]["b"]), head + ":first-of-pair", out)
+        if r:
+            return r
+        head += ":after-equal-key-value"
+    return compare_one(env, case, None, list(out["rk"]["b"]), head, out)
+
+
+def compare_one(env, case, vals, exp, head, out):
+    obs = evaluate(env, case, vals)
+    rep = {"case": case, "spec": exp, "out": out, "code": obs}
     if obs["raised"]:
         return ("mapper operation raised %s" % obs["raised"], head + ":raised", rep)
     if not obs["statements"]:
@@ -171,13 +183,14 @@ def run(ctx):
     types = {"int", "text", "bigint", "uuid"} if ctx.quick else \
             {"int", "text", "bigint", "boolean", "uuid", "smallint", "tinyint", "ascii", "blob"}
     consts = {"MaxCols": 1, "MaxPk": 0, "PVs": {4}, "NVals": 1, "NTextVals": 1, "Partial": False, "MTypes": types, "MMaxPk": 3,
-              "MOps": set(OPS), "MOrders": set(ORDERS), "MFull": not ctx.quick, "MLayouts": set(LAYOUTS), "MLayoutMaxPk": 2}
+              "MOps": set(OPS), "MOrders": set(ORDERS), "MFull": not ctx.quick, "MLayouts": set(LAYOUTS), "MLayoutMaxPk": 2,
+              "MPairTypes": set(PAIR_TYPES)}
     cfg = tlc.write_cfg(os.path.join(ctx.scratch, "mapper.cfg"), init="MapperInit", constants=consts,
-                        invariants=["MapperKeyIsComposite"], deadlock=False)
+                        invariants=["MapperKeyIsComposite", "PairKeysDiffer"], deadlock=False)
     res, states = tlc.enumerate_states("Bind", cfg, ctx.scratch, timeout=900 if ctx.quick else 3000)
     ctx.add_tlc(res, "exhaustive (MapperInit)")
     ctx.note("constants", {"MTypes": sorted(types), "MMaxPk": 3, "MOps": OPS, "MOrders": ORDERS, "MFull": not ctx.quick,
-                           "MLayouts": LAYOUTS, "MLayoutMaxPk": 2})
+                           "MLayouts": LAYOUTS, "MLayoutMaxPk": 2, "MPairTypes": PAIR_TYPES})
     ctx.note("exhaustive", True)
     if res.violation:
         ctx.violation("TLC: %s violated on Bind.tla" % res.invariant, replay={"trace": [dict(s) for _, s in res.trace()]},
@@ -186,12 +199,14 @@ def run(ctx):
     if not any(len(s["case"]["tys"]) == 3 for s in states) or not any(len(s["case"]["tys"]) == 1 for s in states) or \
             {s["case"]["op"] for s in states} != set(OPS) or {s["case"]["order"] for s in states} != set(ORDERS) or \
             not any(s["case"]["order"] == "base_first" and "int" in s["case"]["tys"] and "bigint" in s["case"]["tys"] for s in states) or \
+            not any(s["case"]["before"] and len(s["case"]["tys"]) == 1 for s in states) or \
+            not any(s["case"]["before"] and len(s["case"]["tys"]) == 2 for s in states) or \
             not any(len(s["case"]["tys"]) == 1 and falsy(s["case"], 0) for s in states) or \
             not any(len(s["case"]["tys"]) >= 2 and falsy(s["case"], 0) and not falsy(s["case"], 1) for s in states) or \
             not any(s["case"]["layout"] == "clustering_first" and s["case"]["ckty"] != s["case"]["tys"][0] for s in states) or \
             not any(s["case"]["layout"] == "clustering_between" and s["case"]["ckty"] != s["case"]["tys"][1] for s in states):
         raise tlc.MachineryError("vacuity: single / composite keys, some operation, some definition order or a key mixing "
-                                 "Integer with a subclass, falsy-but-present key values (single and composite) or a clustering column declared before / between the partition key columns "
+                                 "Integer with a subclass, pairs of equal-but-differently-encoded key values, falsy-but-present key values (single and composite) or a clustering column declared before / between the partition key columns "
                                  "not enumerated")
     by_signature = {}
     n = 0
@@ -222,7 +237,7 @@ def run(ctx):
                                                        case["ckty"], case["layout"], order), replay=r[2], signature=r[1])
             models += len(env._models)
             # binding self-test: corrupted expectations must be noticed
-            probe = next(s for s in group if len(s["case"]["tys"]) == 2)
+            probe = next(s for s in group if len(s["case"]["tys"]) == 2 and not s["case"]["before"])
             good = list(probe["out"]["rk"]["b"])
             for bad in (good[:-1], good[::-1], []):
                 rejected += bool(compare(env, {"case": probe["case"], "out": {"rk": {"t": "bytes", "b": tuple(bad)}}}))
@@ -259,7 +274,7 @@ def replay(ctx, obj):
         print("application history %s; key types %s values %s op %s" % (case.get("order"), case["tys"], case["vals"], case["op"]))
         print("spec routing key:", obj["spec"])
         print("code:", obs)
-        r = compare(env, {"case": case, "out": {"rk": {"t": "bytes", "b": tuple(obj["spec"])}}})
+        r = compare(env, {"case": case, "out": obj.get("out") or {"rk": {"t": "bytes", "b": tuple(obj["spec"])}}})
         if r:
             ctx.violation("replayed: " + r[0], replay=obj, signature=r[1])
     finally:
